@@ -541,18 +541,33 @@ def q4(run, project):
             alt = [("yield", f"format({e}.type, {e}.path, b''.join(binary_unmarshal(({e},))), str({e}.value))")]
             # (the binary front-end's unmarshal of the one-event list is to_bytes(event): C02-B3)
             want2 = [("yield", f"format({e}.type, {e}.path, to_bytes({e}), {val})")]
+            # (the value itself may be handed over when format() puts it into the row through an f-string field - that is the
+            # same text form, `format(value, "")`; Q4's row table above requires exactly that of format())
+            raw = "''" if st_ else f"{e}.value"
+            want3 = [("yield", f"format({e}.type, {e}.path, {b_}, {raw})") for b_ in (f"to_bytes({e})", f"b''.join(binary_unmarshal(({e},)))")]
             # (str(value) is NOT accepted: for handle types __str__ gives the bare number, __format__ the symbolic text - seed C14-agent5)
-            run.ob("Q4", st_ is not None and fx in (want, want2),
+            run.ob("Q4", st_ is not None and (fx in (want, want2) or [fx[0]] in [[w] for w in want3] and len(fx) == 1),
                    "pretty(): hex column is the binary re-encoding of exactly this event; value is its text form",
                    f"pretty() row construction changed: [{label}] gives {fx}", module=mod, node=pp.node or pr, func="pretty",
                    construct="pretty row" if len(fx) == 1 else "pretty yields")
     # attribute rows
     ae = pa.args.args[0].arg
     rows = [y for y in walk_no_nested(pa) if isinstance(y, ast.Yield) and isinstance(y.value, ast.Call) and call_name(y.value) == "format"]
-    ok = len(rows) == 1 and len(rows[0].value.args) >= 3 and [norm(rows[0].value.args[0]), norm(rows[0].value.args[2])] == ["None", "None"]
+    bound = None
+    if len(rows) == 1:
+        # the call bound to format()'s own parameters (positional, keyword, defaults)
+        fpar = [a.arg for a in fmt.args.args]
+        fdef = dict(zip(fpar[len(fpar) - len(fmt.args.defaults):], fmt.args.defaults))
+        c_ = rows[0].value
+        bound = {fpar[i]: a_ for i, a_ in enumerate(c_.args) if i < len(fpar)}
+        bound.update({k.arg: k.value for k in c_.keywords if k.arg in fpar})
+        for k_, d_ in fdef.items():
+            bound.setdefault(k_, d_)
+    ok = bound is not None and len(bound) >= 3 and [norm(bound.get(p[0])) if bound.get(p[0]) is not None else None,
+                                                   norm(bound.get(p[2])) if bound.get(p[2]) is not None else None] == ["None", "None"]
     if ok:
         # the row's path: the event's path extended by the attribute's name (through a local or in place)
-        parg = rows[0].value.args[1]
+        parg = bound.get(p[1])
         if isinstance(parg, ast.Name):
             pth = [s for s in walk_no_nested(pa) if isinstance(s, ast.Assign) and norm(s.targets[0]) == parg.id]
             parg = pth[0].value if len(pth) == 1 else None
@@ -580,6 +595,11 @@ def q4(run, project):
             iff = iff._parent
         conj = {norm(v) for v in (iff.test.values if isinstance(iff.test, ast.BoolOp) else [iff.test])}
         ev = norm(c.args[0])
+        # the has-attributes test may sit at the call or open the callee (`if not hasattr(e.value, "attributes"): return`)
+        pbody = [s_ for s_ in pa.body if not (isinstance(s_, ast.Expr) and isinstance(s_.value, ast.Constant))]
+        if pbody and isinstance(pbody[0], ast.If) and norm(pbody[0].test) == f"not hasattr({ae}.value, 'attributes')" and not pbody[0].orelse \
+                and isinstance(pbody[0].body[-1], ast.Return) and not any(isinstance(y_, (ast.Yield, ast.YieldFrom)) for y_ in ast.walk(pbody[0])):
+            conj = conj | {f"hasattr({ev}.value, 'attributes')"}
         run.ob("Q4", {f"isinstance({ev}, MarshalEvent)", f"hasattr({ev}.value, 'attributes')"} <= conj and conj <= {
             f"isinstance({ev}, MarshalEvent)", f"hasattr({ev}.value, 'attributes')", "show_attributes"},
             "bit rows for every attribute word printed by the main loop", f"guard is {sorted(conj)}", module=mod, node=iff,
@@ -768,6 +788,51 @@ def q5(run, project):
            construct="list membership")
 
 
+def q8(run, project):
+    """a byte buffer is shown as *one* row: the text column of the collected row is the buffer passed through a translation
+    table, and that table maps every byte value to one printable ASCII character (0x20..0x7e) - a control character (a
+    newline, a carriage return) would break the row, a byte >= 0x80 would make `.decode()` fail.  The table - a literal or a
+    constant computed from `string` constants - is folded by the mini interpreter."""
+    import string as _string
+    from ..minieval import Imprecise, Interp, NeedBit, Raised
+    mod = project.module(PRETTY)
+    ple = mod.functions().get("pretty_list_elems")
+    tops = {norm(a.targets[0]): a.value for a in mod.tree.body if isinstance(a, ast.Assign) and len(a.targets) == 1 and isinstance(a.targets[0], ast.Name)}
+    from ..minieval import TypeRef
+    strmod = TypeRef("string", attrs={k: getattr(_string, k) for k in dir(_string) if not k.startswith("_") and isinstance(getattr(_string, k), str)})
+    calls = [c for c in ast.walk(ple) if isinstance(c, ast.Call) and isinstance(c.func, ast.Attribute) and c.func.attr == "translate" and len(c.args) == 1]
+    n = 0
+    for c in calls:
+        it = Interp({"string": strmod}, module_tree=mod.tree, max_steps=400000)
+        env = {}
+
+        def need(e, depth=0):
+            for nm in {x.id for x in ast.walk(e) if isinstance(x, ast.Name) and isinstance(x.ctx, ast.Load)}:
+                if nm in env or depth > 6:
+                    continue
+                src = tops.get(nm)
+                if src is None:
+                    loc = [a for a in ast.walk(ple) if isinstance(a, ast.Assign) and len(a.targets) == 1 and norm(a.targets[0]) == nm]
+                    src = loc[0].value if len(loc) == 1 else None
+                if src is not None:
+                    need(src, depth + 1)
+                    env[nm] = it.ev(src, env)
+        try:
+            need(c.args[0])
+            table = it.ev(c.args[0], env)
+        except (Raised, NeedBit, Imprecise, AnalysisError, Exception) as ex:   # noqa: B014
+            raise AnalysisError(f"Q8: the translation table `{norm(c.args[0])[:60]}` could not be folded ({type(ex).__name__}: {str(ex)[:80]})")
+        n += 1
+        ok = isinstance(table, (bytes, bytearray)) and len(table) == 256
+        bad = [b for b in range(256) if not (0x20 <= table[b] <= 0x7e)] if ok else []
+        run.ob("Q8", ok and not bad, "the text column of a byte buffer is one line of printable ASCII",
+               (f"the translation table maps {len(bad)} byte values to non-printable characters (e.g. {', '.join(f'{b:#04x}->{table[b]:#04x}' for b in bad[:5])}): "
+                "a buffer holding such a byte is shown with a raw control character in its value column (a newline splits the row) or "
+                "cannot be decoded to text") if ok else f"the translation table is not a 256-byte table ({type(table).__name__})",
+               module=mod, node=c, func="pretty_list_elems", construct="byte buffer text filter")
+    run.require(n >= 1, "Q8: the byte buffer's text filter (`<buffer>.translate(<table>)`) was not found")
+
+
 def check(run, project):
     L = ctx.layout(project)
     run.explanation = ("must-dataflow of `isinstance(_, MarshalEvent)` knowledge over the CFGs of both printers (Q1), typestate "
@@ -777,6 +842,7 @@ def check(run, project):
     q3(run, L)
     q4(run, project)
     q5(run, project)
+    q8(run, project)
     from .shared import unbound_locals
     unbound_locals(run, project, "Q6", (PRETTY, EVENTS, "tpmstream.io.binary.unmarshal"), what="the printer fails instead of printing")
     from .shared import discarded_generators
